@@ -974,12 +974,199 @@ def Sys.afterRegular (s : Sys) (d : Nat) (o : RunOut) : Sys :=
     (Sys.faultS { s with srv := { s.srv with dbs := s.srv.dbs.set d o.db.dict }, picks := s.picks.drop o.picksUsed }
       o.fault)).2
 
+/-! #### the subscriber-mode check at the head of `_run_command`
+
+A subscribed connection that issues a command outside the allow-list is refused before the arguments are looked at:
+the reply is the context error and the state is literally unchanged. -/
+
+/-- `_run_command` refuses the command: the connection is in subscriber mode and the command is not on the allow-list -/
+def Sys.refuses (s : Sys) (c : Nat) (sig : Sig) : Bool :=
+  decide ((s.conn c).pubsub > 0) && !SigTable.pubsubAllowed.contains sig.name
+
+/-- the reply of a refused command -/
+def refusalReply : Reply := .err (strBytes Msgs.BAD_COMMAND_IN_PUBSUB_MSG)
+
+theorem Sys.refuses_eq_true {s : Sys} {c : Nat} {sig : Sig} :
+    s.refuses c sig = true ↔ (s.conn c).pubsub > 0 ∧ sig.name ∉ SigTable.pubsubAllowed := by
+  simp [Sys.refuses]
+
+theorem Sys.refuses_eq_false {s : Sys} {c : Nat} {sig : Sig} :
+    s.refuses c sig = false ↔ ((s.conn c).pubsub = 0 ∨ SigTable.pubsubAllowed.contains sig.name = true) := by
+  simp only [Sys.refuses, Bool.and_eq_false_iff, decide_eq_false_iff_not, Bool.not_eq_false', Nat.not_lt,
+    Nat.le_zero_eq, gt_iff_lt]
+
+theorem Sys.refuses_of_unsubscribed {s : Sys} {c : Nat} (sig : Sig) (h : (s.conn c).pubsub = 0) :
+    s.refuses c sig = false := Sys.refuses_eq_false.2 (.inl h)
+
+/-- behind the check the subscriber branch of the old gate is dead -/
+theorem runGate_of_not_refused {s : Sys} {c : Nat} {sig : Sig} (fromScript : Bool) (h : s.refuses c sig = false) :
+    runGate sig fromScript (decide ((s.conn c).pubsub > 0)) = runGate sig fromScript false := by
+  unfold Sys.refuses at h
+  unfold runGate
+  simp only [h, Bool.false_and, Bool.false_eq_true, if_false]
+
+/-- for a refused command the old gate (now dead code) is closed too -/
+theorem runGate_of_refused {s : Sys} {c : Nat} {sig : Sig} (fromScript : Bool) (h : s.refuses c sig = true) :
+    ∃ e, runGate sig fromScript (decide ((s.conn c).pubsub > 0)) = some e := by
+  unfold Sys.refuses at h
+  unfold runGate
+  simp only [h, if_true]
+  split <;> exact ⟨_, rfl⟩
+
+/-- outside scripts the old gate of a refused command carries the subscriber-mode error -/
+theorem runGate_direct_of_refused {s : Sys} {c : Nat} {sig : Sig} (h : s.refuses c sig = true) :
+    runGate sig false (decide ((s.conn c).pubsub > 0)) = some Msgs.BAD_COMMAND_IN_PUBSUB_MSG := by
+  unfold Sys.refuses at h
+  unfold runGate
+  simp only [h, Bool.false_and, Bool.false_eq_true, if_false, if_true]
+
+/-- the pure runner with a closed gate notifies nothing, uses no pick and reports no model fault -/
+theorem runRegular_gated (sig : Sig) (body : Body) (ctx : Ctx) (e : Err) (raw : List Bytes) (db : Db) :
+    (runRegular sig body ctx (some e) raw db).notified = [] ∧
+    (runRegular sig body ctx (some e) raw db).picksUsed = 0 ∧
+    (runRegular sig body ctx (some e) raw db).fault = none := by
+  unfold runRegular
+  split <;> exact ⟨rfl, rfl, rfl⟩
+
+/-- an open (old) gate means the command is not refused -/
+theorem Sys.refuses_of_gate_none {s : Sys} {c : Nat} {sig : Sig} {fromScript : Bool}
+    (h : runGate sig fromScript (decide ((s.conn c).pubsub > 0)) = none) : s.refuses c sig = false := by
+  cases hr : s.refuses c sig with
+  | false => rfl
+  | true => obtain ⟨e, he⟩ := runGate_of_refused fromScript hr; rw [he] at h; cases h
+
+/-- for a command that scripts may call, or outside scripts, a closed (old) gate is the subscriber-mode refusal -/
+theorem Sys.refuses_of_gate_some {s : Sys} {c : Nat} {sig : Sig} {fromScript : Bool} {e : Err}
+    (hns : (fromScript && sig.noScript) = false)
+    (h : runGate sig fromScript (decide ((s.conn c).pubsub > 0)) = some e) :
+    s.refuses c sig = true ∧ e = Msgs.BAD_COMMAND_IN_PUBSUB_MSG := by
+  unfold runGate at h
+  rw [hns] at h
+  simp only [Bool.false_eq_true, if_false] at h
+  split at h
+  · rename_i h'
+    exact ⟨h', (Option.some.inj h).symm⟩
+  · cases h
+
+/-- the part of `_run_command` behind the subscriber-mode check (the former `runWith`) -/
+def runWithBody (special : Mode → Nat → String → List Arg → List CI → M (Except Err (Option Reply × List CI)))
+    (mode : Mode) (c : Nat) (sig : Sig) (raw : List Bytes) (fromScript : Bool) : M (Option Reply) := do
+  let conn ← getConn c
+  let d := conn.db
+  let db ← getDb d
+  let gate := runGate sig fromScript (conn.pubsub > 0)
+  match Cmd.regular sig.name with
+  | some body =>
+    let s ← get
+    let ctx : Ctx := { version := s.srv.version, time := s.srv.time, dbnum := d, inTx := conn.inTx, picks := s.picks }
+    let o := runRegular sig body ctx gate raw db
+    setDb d o.db
+    modify fun s => { s with picks := s.picks.drop o.picksUsed }
+    match o.fault with | some f => fault f | none => pure ()
+    o.notified.forM (notifyWatch d)
+    return some o.reply
+  | none =>
+    let (db', res) := sig.apply raw db
+    setDb d db'
+    match res with
+    | .error e => return some (.err (strBytes e))
+    | .ok (.short r) => return some r
+    | .ok (.ok args cis) =>
+      match gate with
+      | some e => return some (.err (strBytes e))
+      | none =>
+        match ← special mode c sig.name args cis with
+        | .error e =>
+          if e.startsWith "model:" then fault e
+          writebackAll d cis
+          return some (.err (strBytes e))
+        | .ok (r, cis') =>
+          writebackAll d cis'
+          return r
+
+/-- `_run_command` = the subscriber-mode check, then the rest -/
+theorem runWith_eq_ite (special) (mode : Mode) (c : Nat) (sig : Sig) (raw : List Bytes) (fromScript : Bool) (s : Sys) :
+    runWith special mode c sig raw fromScript s =
+      if s.refuses c sig then (some refusalReply, s) else runWithBody special mode c sig raw fromScript s := by
+  unfold runWith runWithBody Sys.refuses refusalReply
+  simp only [bind, StateT.bind, getConn_run]
+  split <;> rfl
+
+/-- a refused command: the context error, and the state is literally unchanged -/
+theorem runWith_refused (special) (mode : Mode) (c : Nat) (sig : Sig) (raw : List Bytes) (fromScript : Bool) {s : Sys}
+    (h : s.refuses c sig = true) :
+    runWith special mode c sig raw fromScript s = (some refusalReply, s) := by
+  rw [runWith_eq_ite, if_pos h]
+
+theorem runWith_not_refused (special) (mode : Mode) (c : Nat) (sig : Sig) (raw : List Bytes) (fromScript : Bool) {s : Sys}
+    (h : s.refuses c sig = false) :
+    runWith special mode c sig raw fromScript s = runWithBody special mode c sig raw fromScript s := by
+  rw [runWith_eq_ite, h]; rfl
+
+/-- the part of `runScriptCmd` behind the subscriber-mode check (the former `runScriptCmd`) -/
+def runScriptCmdBody (mode : Mode) (c : Nat) (sig : Sig) (raw : List Bytes) (fromScript : Bool) : M (Option Reply) := do
+  let conn ← getConn c
+  let db ← getDb conn.db
+  let (db', res) := sig.apply raw db
+  setDb conn.db db'
+  match res with
+  | .error e => return some (.err (strBytes e))
+  | .ok (.short r) => return some r
+  | .ok (.ok args _) =>
+    match runGate sig fromScript (conn.pubsub > 0) with
+    | some e => return some (.err (strBytes e))
+    | none =>
+      match ← scriptBody (special (fun _ _ => do fault "nested exec"; return none)) mode c sig.name args with
+      | .ok r => return some r
+      | .error e =>
+        if e.startsWith "model:" then fault e
+        return some (.err (strBytes e))
+
+theorem runScriptCmd_eq_ite (mode : Mode) (c : Nat) (sig : Sig) (raw : List Bytes) (fromScript : Bool) (s : Sys) :
+    runScriptCmd mode c sig raw fromScript s =
+      if s.refuses c sig then (some refusalReply, s) else runScriptCmdBody mode c sig raw fromScript s := by
+  unfold runScriptCmd runScriptCmdBody Sys.refuses refusalReply
+  simp only [bind, StateT.bind, getConn_run]
+  split <;> rfl
+
+theorem runScriptCmd_refused (mode : Mode) (c : Nat) (sig : Sig) (raw : List Bytes) (fromScript : Bool) {s : Sys}
+    (h : s.refuses c sig = true) :
+    runScriptCmd mode c sig raw fromScript s = (some refusalReply, s) := by
+  rw [runScriptCmd_eq_ite, if_pos h]
+
+theorem runScriptCmd_not_refused (mode : Mode) (c : Nat) (sig : Sig) (raw : List Bytes) (fromScript : Bool) {s : Sys}
+    (h : s.refuses c sig = false) :
+    runScriptCmd mode c sig raw fromScript s = runScriptCmdBody mode c sig raw fromScript s := by
+  rw [runScriptCmd_eq_ite, h]; rfl
+
+/-- `_run_command` of a client command refuses in subscriber mode, whatever the command -/
+theorem runCommand_refused (mode : Mode) (c : Nat) (sig : Sig) (raw : List Bytes) (fromScript : Bool) {s : Sys}
+    (h : s.refuses c sig = true) :
+    runCommand mode c sig raw fromScript s = (some refusalReply, s) := by
+  unfold runCommand
+  split
+  · exact runScriptCmd_refused mode c sig raw fromScript h
+  · exact runWith_refused _ mode c sig raw fromScript h
+
+/-- `Sys.regularOut` still carries the old gate: for a refused command it notifies nothing -/
+theorem Sys.regularOut_of_refused {s : Sys} {c : Nat} {sig : Sig} (body : Body) (raw : List Bytes) (fromScript : Bool)
+    (h : s.refuses c sig = true) :
+    (s.regularOut c sig body raw fromScript).notified = [] ∧
+    (s.regularOut c sig body raw fromScript).picksUsed = 0 ∧
+    (s.regularOut c sig body raw fromScript).fault = none := by
+  obtain ⟨e, he⟩ := runGate_of_refused fromScript h
+  unfold Sys.regularOut
+  rw [he]
+  exact runRegular_gated ..
+
+/-- a regular command that is not refused: the pure runner on the selected database -/
 theorem runWith_regular_run (special) (mode : Mode) (c : Nat) (sig : Sig) (raw : List Bytes) (fromScript : Bool)
-    {body : Body} (h : Cmd.regular sig.name = some body) (s : Sys) :
+    {body : Body} (h : Cmd.regular sig.name = some body) (s : Sys) (hr : s.refuses c sig = false) :
     runWith special mode c sig raw fromScript s =
       (some (s.regularOut c sig body raw fromScript).reply,
         s.afterRegular (s.conn c).db (s.regularOut c sig body raw fromScript)) := by
-  unfold runWith Sys.afterRegular Sys.regularOut
+  rw [runWith_not_refused special mode c sig raw fromScript hr]
+  unfold runWithBody Sys.afterRegular Sys.regularOut
   simp only [bind, StateT.bind, getConn_run, getDb_run, h, get, getThe, MonadStateOf.get, StateT.get, setDb_run,
     modify, modifyGet, MonadStateOf.modifyGet, StateT.modifyGet, pure, StateT.pure]
   generalize runRegular _ _ _ _ _ _ = o
@@ -1080,8 +1267,11 @@ theorem execCmd_normal (inner : Inner) (c : Nat) (cis : List CI) (s : Sys) {q : 
 theorem runWith_regular_normal (special) (mode : Mode) (c : Nat) (sig : Sig) (raw : List Bytes) (fromScript : Bool)
     {body : Body} (h : Cmd.regular sig.name = some body) (s : Sys) (c' : Nat) (hn : (s.conn c').normal) :
     ((runWith special mode c sig raw fromScript s).2.conn c').normal := by
-  rw [runWith_regular_run special mode c sig raw fromScript h]
-  exact Sys.afterRegular_pred _ _ _ _ Conn.normal notifyFn_normal hn
+  cases hr : s.refuses c sig with
+  | true => rw [runWith_refused special mode c sig raw fromScript hr]; exact hn
+  | false =>
+    rw [runWith_regular_run special mode c sig raw fromScript h s hr]
+    exact Sys.afterRegular_pred _ _ _ _ Conn.normal notifyFn_normal hn
 
 /-! ### SELECT, new connections -/
 
